@@ -1567,6 +1567,104 @@ def rule_no_deletion(ctx, repo):
             ctx.ok("R5", rel + ":no-deletion", "no call deletes, moves or truncates files", rel)
 
 
+# ------------------------------------------------------------------------------- fold generation / feature selection
+SPLITMOD = "sktime/series_as_features/model_selection/_split.py"
+
+
+def rule_presplit(ctx, repo):
+    """R4: PresplitFilesCV.split is interpreted (token interpreter) on a frame whose rows are *not* ordered train-first:
+    the predefined fold must consist of the positions labelled "train" / "test", whatever their order."""
+    from ._c18_mini import Interp, PyRaise, Undecided as U
+    from . import _c18_models as M
+    cls = repo.cls(SPLITMOD + ":PresplitFilesCV")
+    fn = repo.func(SPLITMOD, "PresplitFilesCV.split")
+    loc = ctx.loc(cls.module, fn)
+    labels = ["test", "train", "train", "test", "train", "test", "test"]
+    data = M.FrameV({"dim_0": ["x%d" % i for i in range(len(labels))], "target": ["t%d" % i for i in range(len(labels))]}, index=labels)
+    tag = "PresplitFilesCV.split"
+    try:
+        out = Interp(repo, M.make_externals(M.VFS()), M.to_float, M.str_hook).call_function(cls.module, fn, [_Store({"cv": None}), data])
+    except U as e:
+        ctx.undecided("R4", tag, str(e), loc)
+        return
+    except PyRaise as e:
+        ctx.violation("R4", tag, "raises %s on a frame indexed by 'train' / 'test' labels" % (e.exc,), loc)
+        return
+    if not isinstance(out, list) or len(out) != 1:
+        ctx.check(None if not isinstance(out, list) else False, "R4", tag + ":one-predefined-fold", "",
+                  "without an inner cv the iterator yields %s folds, expected exactly the predefined one"
+                  % (len(out) if isinstance(out, list) else "?"), loc)
+        return
+    ctx.ok("R4", tag + ":one-predefined-fold", "exactly the predefined fold is yielded when no inner cv is given", loc)
+    fold = out[0]
+    if not (isinstance(fold, tuple) and len(fold) == 2 and all(hasattr(x, "data") for x in fold)):
+        ctx.undecided("R4", tag + ":positions", "yielded value %r is not a (train, test) pair of position arrays" % (fold,), loc)
+        return
+    for part, got in (("train", fold[0]), ("test", fold[1])):
+        want = [i for i, l in enumerate(labels) if l == part]
+        ctx.check(list(got.data) == want, "R4", "%s:%s-positions" % (tag, part),
+                  "%s positions = rows labelled %r (rows in arbitrary order)" % (part, part),
+                  "for row labels %s the %s positions are %s, but the rows labelled %r are %s: the fold is cut by count / order, "
+                  "not by the labels that define the pre-split" % (labels, part, list(got.data), part, want), loc)
+
+
+def selection_kind(expr, data_param):
+    """How a strategy method selects the estimator's input columns from its ``data`` parameter."""
+    m = S.match("H_D[H_E]", expr)
+    if m and isinstance(m["H_D"], ast.Name) and m["H_D"].id == data_param:
+        return ("select", astq.canon(m["H_E"]))
+    m = S.match("H_D.loc[H_R, H_E]", expr)
+    if m and isinstance(m["H_D"], ast.Name) and m["H_D"].id == data_param and isinstance(m["H_R"], ast.Slice) \
+            and m["H_R"].lower is None and m["H_R"].upper is None:
+        return ("select", astq.canon(m["H_E"]))
+    if isinstance(expr, ast.Call) and isinstance(expr.func, ast.Attribute) and expr.func.attr == "drop" \
+            and isinstance(expr.func.value, ast.Name) and expr.func.value.id == data_param:
+        kw = {k.arg: k.value for k in expr.keywords}
+        cols = kw.get("columns") or (expr.args[0] if expr.args else None)
+        return ("drop", astq.canon(cols) if cols is not None else "?")
+    if isinstance(expr, ast.Name) and expr.id == data_param:
+        return ("all", "")
+    return ("unknown", astq.canon(expr))
+
+
+def rule_feature_selection(ctx, repo):
+    """R4: the supervised strategy hands the estimator the same feature columns in fit and in predict, and the
+    task's target as y (sibling agreement; column sets themselves are data)."""
+    cls = repo.cls(STRAT + ":BaseSupervisedLearningStrategy")
+    mod = cls.module
+    sel = {}
+    for mname, call_attr in (("_fit", "fit"), ("predict", "predict")):
+        h = repo.lookup_method(cls, mname)
+        if h is None:
+            ctx.undecided("R4", "BaseSupervisedLearningStrategy.%s" % mname, "method missing", ctx.loc(mod, cls.node))
+            return
+        fn = h[1]
+        params = astq.param_names(fn, skip_self=True)
+        calls = [c for c in astq.calls(fn) if isinstance(c.func, ast.Attribute) and c.func.attr == call_attr
+                 and astq.canon(S.resolve_at(fn, c.func.value, c)) in ("self.estimator", "self._estimator")]
+        if len(calls) != 1 or not params or not calls[0].args:
+            ctx.undecided("R4", "BaseSupervisedLearningStrategy.%s:estimator-call" % mname,
+                          "expected one self.estimator.%s(X, ...) call" % call_attr, ctx.loc(h[0].module, fn))
+            return
+        c = calls[0]
+        sel[mname] = (selection_kind(S.resolve_at(fn, c.args[0], c), params[0]), c, fn, params[0])
+        if mname == "_fit":
+            yexpr = c.args[1] if len(c.args) > 1 else {k.arg: k.value for k in c.keywords}.get("y")
+            yk = selection_kind(S.resolve_at(fn, yexpr, c), params[0]) if yexpr is not None else ("unknown", "missing")
+            ctx.check(True if yk == ("select", "self._task.target") else (None if yk[0] == "unknown" else False), "R4",
+                      "BaseSupervisedLearningStrategy._fit:target", "y = the task's target column",
+                      "the estimator is fitted on y = %s %s, not on the task's target column" % yk, ctx.loc(h[0].module, c))
+    (kf, cf, ffn, _), (kp, cp, pfn, _) = sel["_fit"], sel["predict"]
+    c0 = "BaseSupervisedLearningStrategy:features:fit-vs-predict"
+    loc = ctx.loc(mod, cp)
+    if "unknown" in (kf[0], kp[0]):
+        ctx.undecided("R4", c0, "column selection not recognised: fit uses %s %s, predict uses %s %s" % (kf + kp), loc)
+    else:
+        ctx.check(kf == kp, "R4", c0, "fit and predict hand the estimator the same columns (%s %s)" % kf,
+                  "fit hands the estimator the columns [%s %s] but predict hands it [%s %s]: for a task with an explicit feature list "
+                  "(or extra columns in the data) the estimator predicts on other columns than it was fitted on" % (kf + kp), loc)
+
+
 # ------------------------------------------------------------------------------------------------ entry point
 def run(ctx):
     repo = ctx.repo
@@ -1596,6 +1694,8 @@ def run(ctx):
         consumer_R4(ctx, repo, fit_cons)
         rule_R5_rest(ctx, repo, flow, cons, reg_pos)
     rule_arity(ctx, repo, roles)
+    rule_presplit(ctx, repo)
+    rule_feature_selection(ctx, repo)
     rule_no_deletion(ctx, repo)
     ctx.floor("R1", 2)
     ctx.floor("R2", 11)
